@@ -252,6 +252,35 @@ static void builder_group_case(int pos, int rep) {
     carquet_schema_free(s);
 }
 
+
+/* FIXED_LEN_BYTE_ARRAY widths beyond 8/15/16 bits, and a root element that carries a repetition type (legacy writers emit "repeated group schema") */
+static void widths_and_root_case(int rootrep, int nested) {
+    static const int TL[] = { 1, 255, 256, 32767, 32768, 40000, 65535, 65536, 100000, 1 << 20 }; enum { NTL = 10 };
+    char desc[96]; snprintf(desc, sizeof desc, "c17:flba-widths;root-repetition=%d;nested=%d", rootrep, nested);
+    static ref_schema_elem sc[NTL + 3]; memset(sc, 0, sizeof sc); int ns = 0; static char names[NTL][16];
+    sc[ns].name = (ref_bin){ (const uint8_t*)"schema", 6, true }; sc[ns].has_num_children = true; sc[ns].num_children = nested ? 1 : NTL; if (rootrep >= 0) { sc[ns].has_rep = true; sc[ns].rep = rootrep; } ns++;
+    if (nested) { sc[ns].name = (ref_bin){ (const uint8_t*)"g", 1, true }; sc[ns].has_num_children = true; sc[ns].num_children = NTL; sc[ns].has_rep = true; sc[ns].rep = 2; ns++; }
+    static ref_coldata cols[NTL]; static ref_chunk_layout L[NTL]; memset(cols, 0, sizeof cols); memset(L, 0, sizeof L); static uint8_t* vals[NTL]; static int16_t d1[2], r0[2]; int md = nested ? 1 : 0, mr = nested ? 1 : 0; d1[0] = (int16_t)md;
+    for (int i = 0; i < NTL; i++) { snprintf(names[i], 16, "w%d", TL[i]); ref_schema_elem* e = &sc[ns++]; e->name = (ref_bin){ (const uint8_t*)names[i], (int32_t)strlen(names[i]), true }; e->has_type = true; e->type = PT_FLBA; e->has_type_length = true; e->type_length = TL[i]; e->has_rep = true; e->rep = 0;
+        if (!vals[i]) { vals[i] = malloc((size_t)TL[i]); for (int b = 0; b < TL[i]; b++) vals[i][b] = (uint8_t)(b * 31 + i); }
+        cols[i].ptype = PT_FLBA; cols[i].type_length = TL[i]; cols[i].max_def = md; cols[i].max_rep = mr; cols[i].nlevels = 1; cols[i].def = d1; cols[i].rep = r0; cols[i].nvalues = 1; cols[i].fixed = vals[i]; L[i].crc = true; }
+    int64_t rows = 1; ref_write_req rq; memset(&rq, 0, sizeof rq); rq.schema = sc; rq.nschema = ns; rq.nleaves = NTL; rq.nrg = 1; rq.rg_rows = &rows; rq.cols = cols; rq.layouts = L; ref_buf img; ref_buf_init(&img);
+    if (ref_pq_write(&RA, &rq, &img, NULL, 0, NULL)) mc_harness_error("reference writer failed (flba widths)");
+    uint8_t* x = mc_exact(img.p, img.n); carquet_error_t err = CARQUET_ERROR_INIT; carquet_reader_t* rd = carquet_reader_open_buffer(x, img.n, NULL, &err);
+    if (!rd) { mc_fail(rootrep > 0 ? "widths.open-failed.root-with-repetition" : "widths.open-failed", "%s: code %d %s", desc, err.code, err.message); free(x); ref_buf_free(&img); return; }
+    const carquet_schema_t* s = carquet_reader_schema(rd);
+    if (carquet_schema_num_columns(s) != NTL) mc_fail("widths.num-columns", "%s: %d columns, stored %d", desc, carquet_schema_num_columns(s), NTL);
+    for (int i = 0; i < NTL && i < carquet_schema_num_columns(s); i++) { const carquet_schema_node_t* nd = carquet_schema_get_element(s, (nested ? 2 : 1) + i); if (!nd) { mc_fail("widths.element-missing", "%s: element %d", desc, i); continue; }
+        if (carquet_schema_node_type_length(nd) != TL[i]) mc_fail(TL[i] >= 32768 ? "widths.type-length.beyond-15-bits" : "widths.type-length", "%s: leaf %s reports type_length %d", desc, names[i], carquet_schema_node_type_length(nd));
+        if (carquet_schema_node_max_def_level(nd) != md || carquet_schema_node_max_rep_level(nd) != mr) mc_fail(rootrep > 0 ? "widths.levels.root-with-repetition" : "widths.levels", "%s: leaf %s reports levels %d/%d, textbook %d/%d (the root never counts)", desc, names[i], carquet_schema_node_max_def_level(nd), carquet_schema_node_max_rep_level(nd), md, mr);
+        if (carquet_schema_find_column(s, names[i]) != i) mc_fail("widths.find-column", "%s: find_column(%s) = %d", desc, names[i], carquet_schema_find_column(s, names[i]));
+        carquet_column_reader_t* cr = carquet_reader_get_column(rd, 0, i, &err); if (!cr) { mc_fail(TL[i] >= 32768 ? "widths.column-open-failed.beyond-15-bits" : rootrep > 0 ? "widths.column-open-failed.root-with-repetition" : "widths.column-open-failed", "%s: leaf %s code %d %s", desc, names[i], err.code, err.message); continue; }
+        uint8_t* vb = mc_exact(NULL, (size_t)TL[i] * 2); int16_t db[2] = { -1, -1 }, rb[2] = { -1, -1 }; int64_t got = carquet_column_read_batch(cr, vb, 2, db, rb);
+        if (got != 1 || db[0] != md || rb[0] != 0 || memcmp(vb, vals[i], (size_t)TL[i])) mc_fail(TL[i] >= 32768 ? "widths.value.beyond-15-bits" : rootrep > 0 ? "widths.value.root-with-repetition" : "widths.value", "%s: leaf %s: read_batch = %lld, levels %d/%d", desc, names[i], (long long)got, db[0], rb[0]);
+        free(vb); carquet_column_reader_free(cr); }
+    carquet_reader_close(rd); free(x); ref_buf_free(&img);
+}
+
 static void enumerate(void) {
     mc_rule("C17: every ordered rooted tree with up to 6 (quick) / 7 (thorough) nodes x every labeling of the non-root nodes by {REQUIRED, OPTIONAL, REPEATED} x {unique, colliding, prefix-of-an-earlier-leaf} names, written by the reference writer with rows whose levels are at "
             "their maxima (leaf types cycle through the 8 physical types). Oracle = textbook definition computed on the tree: leaves in DFS order, max_def = optional+repeated nodes on the path, max_rep = repeated nodes; element accessors; "
@@ -273,6 +302,12 @@ static void enumerate(void) {
         if (!mc_next()) continue;
         mc_desc("c17:builder-group;element=%d;repetition=%d", POS[pi], rep); mc_case_key(mc_mix(0x17c, ((uint64_t)pi << 8) | (uint64_t)rep)); mc_nontrivial();
         builder_group_case(POS[pi], rep);
+    }
+    mc_stage("file.flba-widths.root-repetition");
+    for (int rootrep = -1; rootrep <= 2; rootrep++) for (int nested = 0; nested < 2; nested++) {
+        if (!mc_next()) continue;
+        mc_desc("c17:flba-widths;root-repetition=%d;nested=%d", rootrep, nested); mc_case_key(mc_mix(0x17e, ((uint64_t)(rootrep + 1) << 4) | (uint64_t)nested)); mc_nontrivial();
+        widths_and_root_case(rootrep, nested); ref_arena_free(&RA);
     }
     mc_stage("logical-types.every-type.every-unit.flat-and-nested");
     for (int first = 0; first < NLT; first++) for (int count = 1; count <= (mc_thorough() ? NLT : 3); count += (count < 3 ? 1 : NLT - 3)) for (int nested = 0; nested < 2; nested++) {
